@@ -4,7 +4,7 @@ import json, os, sys, subprocess
 sys.path.insert(0, '/verif')
 from vlib import families as F
 
-CORE_NOTE = ("Bounded: 3 chains (full mesh), <=3 sequences per channel exhaustively on the model (one busy channel with up to 13 sequences by simulation); "
+CORE_NOTE = ("Bounded: 3 chains (full mesh; the relay chain without client of the destination on the topology A-B, A-C), <=3 sequences per channel exhaustively on the model (one busy channel with up to 13 sequences by simulation); "
              "the real code is checked on the TLC-generated behaviours replayed (quick: ~70 behaviours x 40-100 steps, thorough: ~800 x 60-150). "
              "Trusted: TLC, cosmos-sdk BaseApp atomicity, IAVL/ICS-23, cometbft light client, the harness projection (harness/core.go).")
 CORE_TECH = "explicit TLA+ spec (TibcCore) checked by TLC + TLC-generated behaviours replayed on real simapp chains + TLC trace validation (TraceCore: MONITOR formulas and REFINE against the spec's next-state function)"
@@ -19,14 +19,14 @@ CLAIMS = {
  "C03": ("Inv_C03 exhaustively on the model; on the real code every accepted acknowledgement must match the commitment still held, be recorded on the proving chain, drop the commitment; acknowledgements are written once and equal the application's result; ack callback at most once and only on the source.", CORE_NOTE, CORE_TECH, "§6 C03"),
  "C09": ("Inv_C09 (gap-free, no reuse) exhaustively; every recorded send step (mock port and NFT/MT applications): sequence = next, advanced by one, exactly one commitment of that data, one send_packet event with the same fields, token locked or burned, failing sends change nothing.", CORE_NOTE, CORE_TECH, "§6 C09"),
  "C10": ("Inv_C10/Prop_C10mono exhaustively; every recorded clean / receive-clean step: window, all acknowledged, proven from the source's clean point, exact effect, monotone clean point, nothing at or below the clean point accepted afterwards; a long-channel generation mode reaches two-digit sequences with out-of-order acknowledgements.", CORE_NOTE, CORE_TECH, "§6 C10"),
- "C11": ("Inv_C11 exhaustively; every recorded relay-chain step: re-commit iff whitelisted and destination known else error ack and no commitment; acknowledgement passed on unchanged; no application callback and no token-store change on the transit chain.", CORE_NOTE, CORE_TECH, "§6 C11"),
+ "C11": ("Inv_C11 exhaustively; every recorded relay-chain step: re-commit iff whitelisted and destination known else error ack and no commitment; acknowledgement passed on unchanged; no application callback and no token-store change on the transit chain; a second topology (A-B, A-C only) exercises the relay chain that does not know the destination; rule sets with near-miss names (prefix / suffix / substring of the real triple).", CORE_NOTE, CORE_TECH, "§6 C11"),
  "C13": ("Inv_C13 exhaustively on the intended model (holds) and on the as-coded model (TLC exhibits the counterexample); every accepted receive/ack on the real code must present the packet exactly as sent (all six fields) - the code fails this for port and relay chain (known finding S1).", CORE_NOTE, CORE_TECH, "§6 C13"),
  "C19": ("every recorded step of the core family: a non-zero result code leaves the projected state and the raw store digests (packet store, token stores) of every chain unchanged; no step changes another chain; application error acknowledgements leave token state unchanged (application family formulas).", CORE_NOTE, CORE_TECH, "§6 C19"),
  "C04": ("Inv_C04 (every native NFT asset held exactly once: by one user-owned token or one packet) exhaustively on the application model with the plain class universe; on the real code every recorded step is checked: asset count after the step, escrow released only to the returning voucher of the same asset or by its own refund, tokens created only by native mint / delivered packet / refund.", APPS_NOTE, APPS_TECH, "§6 C04"),
  "C05": ("Inv_C05 (user-held units + units in flight = units minted natively) and supply = sum of balances exhaustively on the model; on the real code after every recorded step, at unit scale 1 and at the scale where 15 units = 2^64-1 (wrap-around shows as a non-whole number of units or a conservation failure).", APPS_NOTE, APPS_TECH, "§6 C05"),
  "C06": ("every recorded error-acknowledgement step on a source chain must be processed and give back exactly what left to the same account; every delivered return hop must hand the receiver the token left behind on that chain; checked for plain, prefixed, '/'-containing and path-like native classes and vouchers over direct and relayed routes.", APPS_NOTE, APPS_TECH, "§6 C06"),
  "C14": ("packet part: Inv_C14 exhaustively on the core model with an expiring client; on the real code a client with a one-hour trusting period is let to expire at TLC-chosen points and every accepted receive/ack/clean is checked not to go through it. Status part: StatusClient.tla's decision on the full grid (3 client types x periods x ages incl. the boundary x sub-second parts) against the real Status().", CORE_NOTE + " Status grid: 204 cases, exhaustive.", CORE_TECH + "; StatusClient.tla case grid + TraceStatus", "§6 C14"),
- "C16": ("the specification's ExportImport action is the identity; the harness exports a chain with the application's own export function at TLC-chosen points of core and application behaviours (incl. heights whose key bytes contain '/'), starts a fresh application from the exported state and TLC requires the TIBC store and the transfer modules' stores to be equal key by key (classes of differing keys are the findings).", "State equality is checked instead of running a twin chain forward (DESIGN.md §6 C16): identical stores + determinism (C20) give identical reactions. irismod nft/mt stores are third-party and not compared. " + CORE_NOTE, CORE_TECH + " with an ExportImport environment action", "§6 C16"),
+ "C16": ("the specification's ExportImport action is the identity; the harness exports a chain with the application's own export function at TLC-chosen points of core and application behaviours (incl. heights whose key bytes contain '/'), starts a fresh application from the exported state and TLC requires the TIBC store and the transfer modules' stores to be equal key by key (classes of differing keys are the findings); every behaviour of the BSC and ETH client families ends with the same export + re-import of the chain holding that client (Export step, identity in Bsc / Eth).", "State equality is checked instead of running a twin chain forward (DESIGN.md §6 C16): identical stores + determinism (C20) give identical reactions. irismod nft/mt stores are third-party and not compared. " + CORE_NOTE, CORE_TECH + " with an ExportImport environment action", "§6 C16"),
  "C20": ("the same TLC-generated behaviours (core, genesis, application families) are executed twice by different processes (GOMAXPROCS 16 vs 2, different TMPDIR and sharding, later wall clock) from the same deterministic genesis; TLC (TraceDet.tla) requires result code, full result fingerprint (log, gas, events), app hash of every chain, projected state and store digests to agree line by line.", "Twin-trace equality monitor: the TLA+ part is the comparison. Both executions run on this machine/toolchain. Keys and block times are fixed by harness/detchain.go.", "TLC twin-trace monitor (TraceDet) over two real executions of TLC-generated behaviours", "§6 C20"),
 }
 
